@@ -77,8 +77,10 @@ ASSUMPTIONS = [
     "outside <= 1.2e-6; the unit box for the uniform base), cell areas by "
     "the shoelace formula (no reported log-determinant is used); tolerance "
     "2e-2 (5e-2 for LARS whose constant is a Monte-Carlo estimate), "
-    "asserted only when the 200x200 and 400x400 sums differ by <= 5e-3, "
-    "otherwise counted inconclusive",
+    "asserted only when the 200x200 and 400x400 sums differ by <= 5e-3 and "
+    "the cells carrying all but 1e-3 of the latent mass are wider than 64 "
+    "ulp of the flow's dtype (else the density cannot be sampled on the "
+    "mesh), otherwise counted inconclusive",
     "LARS: the first evaluation of a flow whose constant is unset is a batch "
     "of 2048 points; the normalisation oracle is asserted only when "
     "8*cv/sqrt(2048) < 5e-2 (cv = relative spread of the acceptance function "
@@ -94,9 +96,14 @@ ASSUMPTIONS = [
     "faces of the unit cube are not compared (logit condition number); a "
     "draw() that needs more than 200 batches (barely trained flow with no "
     "mass in the unit cube) is abandoned and counted inconclusive",
-    "keys: a failure of a numeric clause while the flow contains glasflow "
-    "BatchNorm layers whose running_var is still 0 is reported under "
-    "fresh-batchnorm:not-invertible whatever the clause (one root cause)",
+    "flows containing glasflow BatchNorm layers whose running_var is still "
+    "the initial 0 (eval-mode gain 316 per layer, relative condition number "
+    "up to 1e10): the round-trip clauses are asserted literally, without the "
+    "conditioning allowance S, because there the ill-conditioning does not "
+    "come from a learned or configured map but from an initial constant and "
+    "is itself the defect (nessai's own reset_weights sets the value to 1); "
+    "any numeric clause failing in that state is reported under "
+    "fresh-batchnorm:not-invertible (one root cause)",
 ]
 
 RT_TOL = {"float32": 1e-4, "float64": 1e-9}
@@ -516,6 +523,11 @@ def _check_flow(case, out, dname, dtype):
     if n_bn:
         rt_key = lj_key = rtz_key = K_BN
     s_x, s_lj, _ = twin.sens("I", zr)
+    if n_bn:
+        # the conditioning allowance absorbs the conditioning of a learned /
+        # structured map; here the ill-conditioning (1e10 for four layers) is
+        # produced by an initial constant and IS the defect: literal reading
+        s_x = s_lj = None
     meas["rt_x"] = ck.close(
         rt_key, xr, x, tol, "inverse(forward(x)) vs x" + why_bn, sens=s_x
     )
@@ -529,6 +541,8 @@ def _check_flow(case, out, dname, dtype):
     ck.finite(rtz_key if n_bn else "nan:inverse", x1, "inverse(z)" + why_bn)
     z1, ljf1, _ = _ref_forward(model, x1, dtype)
     s_z, s_lj, _ = twin.sens("F", x1)
+    if n_bn:
+        s_z = s_lj = None
     meas["rt_z"] = ck.close(
         rtz_key, z1, z0, tol, "forward(inverse(z)) vs z" + why_bn, sens=s_z
     )
@@ -726,6 +740,23 @@ def _integrate_2d(case, fm, model, dtype, var, uniform, twin):
     ]).reshape(n + 1, n + 1, 2)
     if not np.isfinite(xn).all():
         res["grid_status"] = "inconclusive:mesh-nonfinite"
+        return res
+
+    # cells must be resolvable in the flow's dtype where the mass is
+    eps_d = _eps("float64" if str(dtype).endswith("64") else "float32")
+    zc = 0.5 * (g[:-1] + g[1:])
+    zcc = np.stack(np.meshgrid(zc, zc, indexing="ij"), -1).reshape(-1, 2)
+    wz = np.ones(len(zcc)) if uniform else np.exp(
+        _std_normal_logpdf(zcc, var))
+    a_, b_, c_, d0 = xn[:-1, :-1], xn[1:, :-1], xn[1:, 1:], xn[:-1, 1:]
+    diag = np.minimum(
+        np.abs(c_ - a_).max(axis=-1), np.abs(d0 - b_).max(axis=-1)
+    ).reshape(-1)
+    mag = np.maximum(1.0, np.abs(0.25 * (a_ + b_ + c_ + d0)).max(axis=-1))
+    under = diag < 64 * eps_d * mag.reshape(-1)
+    res["grid_unresolved_mass"] = float(wz[under].sum() / wz.sum())
+    if res["grid_unresolved_mass"] > 1e-3:
+        res["grid_status"] = "inconclusive:resolution"
         return res
 
     def riemann(step):
@@ -951,6 +982,8 @@ def _check_fp(case, out, dname, dtype):
     x2a = np.stack([x2[n] for n in fp.prime_parameters], -1).astype(float)
     twin = _Twin(fp.flow.model)
     s_z, s_lj, _ = twin.sens("F", x2a)
+    if n_bn:
+        s_z = s_lj = None  # see _check_flow
     meas["fp_z"] = ck.close(
         key_z, zf, zk, tol,
         "latent point recovered by forward_pass vs the one passed to "
